@@ -10,6 +10,7 @@ functions must carry.  Binding (spec -> code): each printed case is rendered to 
 verdict and the FuncDefn metadata are compared with what TLC printed.
 """
 import collections
+import itertools
 import json
 import random
 
@@ -97,12 +98,9 @@ def check_meta(e, o):
         bad.append(f"function metadata {tests} != [{e['meta']['test']}]")
     blocks = [m for n, m in meta if n.startswith("__WithBlock__")]
     want = e["meta"]["blocks"]
-    ok = len(blocks) == len(want) and all(isinstance(b, int) for b in blocks)
-    if ok and len(want) == 1:
-        ok = subset_bits(want[0][0], blocks[0]) and subset_bits(blocks[0], want[0][1])
-    elif ok and len(want) == 2:
-        fits = lambda m, w: subset_bits(w[0], m) and subset_bits(m, w[1])  # noqa: E731
-        ok = (fits(blocks[0], want[0]) and fits(blocks[1], want[1])) or (fits(blocks[1], want[0]) and fits(blocks[0], want[1]))
+    fits = lambda m, w: isinstance(m, int) and subset_bits(w[0], m) and subset_bits(m, w[1])  # noqa: E731
+    ok = len(blocks) == len(want) and any(all(fits(m, w) for m, w in zip(perm, want))
+                                          for perm in itertools.permutations(blocks))
     if not ok:
         bad.append(f"with-block metadata {blocks} not within {want}")
     call = e["case"]["call"]
@@ -133,7 +131,9 @@ def compare(entries, obs):
             why = "+".join(e["verdicts"])
             if e["verdicts"] == ["Call"]:
                 cond = pos in ("if_cond", "while_cond", "ifexp_cond", "boolop_cond")
-                if e["scope"] == "outer":
+                if pos in ("arg_after_qubit", "arg_before_qubit"):
+                    key = f"call-nested-in-argument-unchecked@{pos}"
+                elif e["scope"] == "outer":
                     key = f"nested-with-outer-flags-unchecked@{pos}"
                 elif cond:
                     key = f"branch-condition-unchecked@{pos}"
